@@ -56,6 +56,8 @@ PROPS["C14"] = {
     "rule": ("every history of the stated depth over the stated alphabet is first run fault-free to count its m mutating/sync libc calls (incl. those of open and close); "
              "then for every k in 1..m it is re-run with call k returning EIO without side effect, continued to its end and reopened cleanly. A per-key "
              "set-of-allowed-values model (old or new for keys of failed operations, exact for all others) is checked by reading every key after every step and after the reopen. "
+             "Sub-plans labelled 'two faults' continue to deviation bound 2: for every k, every later call k2 of the run that already has fault k fails as well; a pair is judged only when "
+             "the two failing calls belong to different API calls (one failing call per operation, as the property states; pairs inside one call are counted as not judged). "
              "states = distinct (faulted call site, operation in flight, number of failed ops); transitions = operations executed."),
     "explanation": "One injected I/O failure at every mutating filesystem call of every bounded history: no panic, the failed operation's keys hold old or new, all other keys exact, reopen succeeds.",
 }
@@ -110,6 +112,7 @@ PROPS["C02"]["engines"].append({"engine": "sched", "shim": True})
 PROPS["C07"]["engines"].append({"engine": "sched", "shim": True})
 PROPS["C06"]["engines"].append({"engine": "sched", "shim": True})
 PROPS["C08"]["engines"].append({"engine": "sched", "shim": True})
+PROPS["C14"]["engines"].append({"engine": "sched", "shim": True})
 
 PROPS["C11"] = {"engines": [{"engine": "open", "shim": True}],
                 "rule": ("threads: 2 and 3 racing Cas::open calls on a fresh directory, a populated closed store and a store with an un-replayed WAL tail, under the controlled scheduler with EVERY "
@@ -126,8 +129,8 @@ PROPS["C19"] = {"engines": [{"engine": "open", "shim": True}],
 PROPS["C09"] = {"engines": [{"engine": "power", "shim": True}],
                 "rule": ("the histories of the CRASH engine (Sync mode) are executed once with the shim recording every filesystem call and its result; a small filesystem model (names, "
                          "inodes, per-inode content as of its last fsync/fdatasync) is replayed over the trace. At every cut the no-loss reconstruction must equal the live directory "
-                         "byte for byte (model bound to the implementation; counted in traces_validated_against_impl). For every cut and every non-empty subset of the inodes holding "
-                         "unsynced bytes, those inodes revert to their synced content and the image is recovered and checked with the C03 oracles. states = distinct loss images; "
+                         "byte for byte (model bound to the implementation; counted in traces_validated_against_impl). For every cut and every subset of the inodes holding "
+                         "unsynced bytes (the empty subset wherever such bytes exist), those inodes revert to their synced content and the image is recovered and checked with the C03 oracles. states = distinct loss images; "
                          "transitions = images recovered."),
                 "explanation": "Power-loss durability in Sync mode: on every image in which any subset of files loses the bytes not covered by an explicit sync (directory operations persist in issue order) the next open succeeds, acknowledged operations survive with intact contents and the in-flight operation is all-or-nothing.",
                 "count_cases_as_traces": False}
@@ -136,14 +139,14 @@ ENGINES = [
     {"name": "seq", "path": "harness/src/seq.rs", "serves_properties": ["C01", "C02", "C07", "C12", "C13"],
      "kind_free_text": "bounded-exhaustive operation-sequence enumeration on the real store vs BTreeMap model + independent on-disk decoders"},
     {"name": "fault", "path": "harness/src/fault.rs", "serves_properties": ["C14"],
-     "kind_free_text": "one EIO at every mutating libc call of every bounded history (LD_PRELOAD shim), continuation + reopen vs per-key allowed-value model"},
+     "kind_free_text": "one EIO at every mutating libc call of every bounded history (LD_PRELOAD shim), and every pair of such calls in different operations on small sub-plans; continuation + reopen vs per-key allowed-value model"},
     {"name": "input", "path": "harness/src/input.rs", "serves_properties": ["C16", "C17", "C18"],
      "kind_free_text": "exhaustive small-scope input enumeration into the real codecs / range reads / chunked puts, under catch_unwind and an allocation guard"},
     {"name": "waldmg", "path": "harness/src/waldmg.rs", "serves_properties": ["C10"],
      "kind_free_text": "every truncation offset / single-byte change of the un-checkpointed WAL tail of bounded-history stores, opened with the real Cas::open"},
     {"name": "plant", "path": "harness/src/plant.rs", "serves_properties": ["C08"],
      "kind_free_text": "exhaustive small subsets of planted garbage/corruption in every bounded-history store: scan classification and clean-up exactness"},
-    {"name": "sched", "path": "harness/src/sched.rs + conc.rs", "serves_properties": ["C04", "C05", "C15", "C02", "C06", "C07", "C08", "C13", "C20"],
+    {"name": "sched", "path": "harness/src/sched.rs + conc.rs", "serves_properties": ["C04", "C05", "C15", "C02", "C06", "C07", "C08", "C13", "C14", "C20"],
      "kind_free_text": "CHESS-style controlled scheduler over the real parking_lot locks and real files (repo hooks + LD_PRELOAD shim), preemption-bounded exhaustive DFS, linearizability by brute force"},
     {"name": "open", "path": "harness/src/open.rs", "serves_properties": ["C11", "C19"],
      "kind_free_text": "racing opens under the controlled scheduler with every filesystem call as a point; cross-process pause/kill of the owner; exhaustive settings-gate configurations"},
